@@ -146,7 +146,8 @@ fn gen_container(r: &mut Rng) -> ContainerCfg {
     ports.dedup();
     let mut mounts: Vec<(String, String)> = Vec::new();
     for _ in 0..r.usize(3) {
-        let s = (*r.pick(&["/host/data", "/tmp/with space", "/a=b", "/ünï", "relative/src", "/-dash"])).to_string();
+        // "$MNT/..." are directories that exist on the host: `current` is a link to `releases/v2`
+        let s = (*r.pick(&["/host/data", "/tmp/with space", "/a=b", "/ünï", "relative/src", "/-dash", "$MNT/current", "$MNT/releases/v2", "$MNT/current"])).to_string();
         if mounts.iter().any(|(ss, _)| *ss == s) {
             continue;
         }
@@ -269,4 +270,12 @@ pub fn count_positions(n: &BuildNode) -> u32 {
         }
     }
     c + 1
+}
+
+/// Mount sources written as `$MNT/...` stand for paths below the scenario's `mnt` directory.
+pub fn resolve_mount_source(src: &str, mnt: &std::path::Path) -> String {
+    match src.strip_prefix("$MNT") {
+        Some(rest) => format!("{}{rest}", mnt.display()),
+        None => src.to_string(),
+    }
 }
